@@ -290,13 +290,26 @@ Definition ep_release_00 (v : pyval) : pyval :=
   | _ => bad_input
   end.
 
+Definition p_ostr (o : option str) : pyval := match o with Some s => PStr s | None => PNone end.
+Definition ep_paths_00 (v : pyval) : pyval :=
+  match v with
+  | PList [PStr short; PStr version; PStr vid; PStr arch; repo; pkgs] =>
+      match get_opt_str repo, get_opt_str pkgs with
+      | Some r, Some p =>
+          let '(a, b, c, d) := paths_00 short version vid arch r p in PList [p_ostr a; p_ostr b; p_ostr c; p_ostr d]
+      | _, _ => bad_input
+      end
+  | _ => bad_input
+  end.
+
 (* the INI writer alone, on a section table *)
 Definition ep_print_ini (v : pyval) : pyval :=
   match get_ini v with Some t => PStr (print_ini t) | None => bad_input end.
 
 Definition entries_ti : list (str * (pyval -> pyval)) :=
   [ (lit "dump_ti", ep_dump_ti); (lit "load_ti", ep_load_ti); (lit "dump_di", ep_dump_di); (lit "print_ini", ep_print_ini);
-    (lit "release_00", ep_release_00) ].
+    (lit "release_00", ep_release_00);
+    (lit "paths_00", ep_paths_00) ].
 
 (* ---------------- checksums *)
 From PM Require Import Model.Checksums.
